@@ -20,6 +20,10 @@ var Configs = map[string]Config{
 }
 
 func init() {
+	ne := Configs["scalars"]
+	ne.Name = "scalars-ne"
+	ne.RareEmpty = false
+	Configs["scalars-ne"] = ne
 	e := Configs["scalars"]
 	e.Name = "scalars-empty"
 	e.EmptyStrings = true
@@ -39,6 +43,8 @@ func init() {
 		Configs["vamana-"+m] = Config{Name: "vamana-" + m, NoExtras: true, PVec: 0.6, Props: append([]Prop{
 			{Name: "v", Type: models.IndexTypeVectorVamana, Metric: m, Dim: dim, SearchSize: 75, DegreeBound: 32, Alpha: 1.2}}, filt...)}
 	}
+	Configs["vamana-wide"] = Config{Name: "vamana-wide", NoExtras: true, PVec: 0.95, VecRange: 1500, VecLine: true, Props: append([]Prop{
+		{Name: "v", Type: models.IndexTypeVectorVamana, Metric: models.DistanceEuclidean, Dim: 2, SearchSize: 75, DegreeBound: 64, Alpha: 1.2}}, filt...)}
 	Configs["text"] = Config{Name: "text", NoExtras: true, Props: append([]Prop{
 		{Name: "t", Type: models.IndexTypeText}, {Name: "n.t", Type: models.IndexTypeText}}, filt...)}
 	Configs["kitchen"] = Config{Name: "kitchen", BadTypes: true, Props: []Prop{
